@@ -2,6 +2,7 @@
 (* Step V for C10.  The trace is a sequence of scenarios                      *)
 (*   {"e":"reset","w":W}                                                       *)
 (*   {"e":"arrive","id":i,"f":f,"t":ticks,"rx":rx,"out":[rec,..]}   (i = 1..n) *)
+(*   {"e":"burst","arr":[arrival,..],"out":[rec,..]}   (queued burst, see BurstEv) *)
 (*   {"e":"close","out":[rec,..],"panic":bool}                                 *)
 (* rec = {"f":f,"t":ticks,"m":[[id,rx],..]}: what deduplicate_messages sent    *)
 (* on its output channel while that arrival was being processed (close: after  *)
@@ -75,12 +76,45 @@ CloseEv(ev) ==
      ELSE IF FinalOk(hist, o2, w) THEN TRUE ELSE PrintT(<<"REJECT", l, "final">>)
   /\ ok' = FALSE /\ UNCHANGED vars
 
+(* A queued burst: {"e":"burst","arr":[{id,f,t,rx},..],"out":[rec,..]} - the      *)
+(* arrivals were all waiting on the input channel when the task woke up, and     *)
+(* "out" is everything emitted until it waited again.  Queued receptions are     *)
+(* still receptions with their own timestamps: the burst must be explained by    *)
+(* processing them one by one, in order - arrival i accounts for the next n_i    *)
+(* records, n_i = the number of decodable groups due at arrival i.               *)
+RECURSIVE RunBurst(_, _, _, _)
+RunBurst(st, arr, i, recs) ==
+  IF i > Len(arr) THEN [ok |-> recs = <<>>, st |-> st]
+  ELSE LET a  == arr[i]
+           r  == [id |-> a.id, f |-> a.f, t |-> a.t, rx |-> a.rx]
+           c1 == InsCache(st.cache, r)
+           h1 == InsHeap(st.cache, st.heap, r, w)
+           t1 == Ms(r.t)
+           n  == Cardinality({e \in Due(h1, t1) : ~Silent(c1, e)})
+       IN IF a.id # Len(st.hist) + 1 \/ n > Len(recs) THEN [ok |-> FALSE, st |-> st]
+          ELSE LET mine == SubSeq(recs, 1, n) IN
+               IF ~Explains(c1, h1, t1, mine) THEN [ok |-> FALSE, st |-> st]
+               ELSE RunBurst([cache |-> AfterCache(c1, h1, t1), heap |-> AfterHeap(h1, t1),
+                              hist |-> Append(st.hist, r), now |-> t1,
+                              dropped |-> st.dropped \cup DroppedBy(c1, h1, t1),
+                              out |-> st.out \o Stamped(mine, a.id)],
+                             arr, i + 1, SubSeq(recs, n + 1, Len(recs)))
+
+BurstEv(ev) ==
+  LET res == RunBurst([cache |-> cache, heap |-> heap, hist |-> hist, now |-> now,
+                       dropped |-> dropped, out |-> out], ev.arr, 1, ev.out)
+  IN IF res.ok
+     THEN /\ cache' = res.st.cache /\ heap' = res.st.heap /\ hist' = res.st.hist /\ now' = res.st.now
+          /\ dropped' = res.st.dropped /\ out' = res.st.out /\ UNCHANGED <<w, ok>>
+     ELSE PrintT(<<"REJECT", l, "burst">>) /\ ok' = FALSE /\ UNCHANGED vars
+
 Init == l = 1 /\ ok = FALSE /\ InitW(0)
 Next == /\ l <= NRec /\ l' = l + 1
         /\ LET ev == Rec[l] IN
            IF ev.e = "reset" THEN Reset(ev)
            ELSE IF ~ok THEN UNCHANGED <<ok, w, hist, cache, heap, now, out, dropped>>
            ELSE IF ev.e = "arrive" THEN Arrive(ev)
+           ELSE IF ev.e = "burst" THEN BurstEv(ev)
            ELSE CloseEv(ev)
 Spec == Init /\ [][Next]_tvars
 =============================================================================
